@@ -1361,6 +1361,16 @@ class Thunk(Generic[X, R], Pytree):
         return trace(other, self.gen_fn, self.args, self.kwargs)
 
 
+def _where_lanes(check, v1, v2):
+    """`jnp.where` with a (possibly vectorised) condition that indexes the LEADING
+    axes of the values: a condition of shape (lanes,) selects whole lanes of values
+    of shape (lanes, k), whatever k is."""
+    extra = jnp.ndim(v1) - jnp.ndim(check)
+    if extra > 0:
+        check = jnp.reshape(check, jnp.shape(check) + (1,) * extra)
+    return jnp.where(check, v1, v2)
+
+
 def _bind_kwargs(method, kwargs):
     """`modular_vmap` maps positional arguments only: keyword arguments are closed
     over and shared by all lanes (as `Scan` shares them between iterations)."""
@@ -1673,7 +1683,7 @@ class Distribution(Generic[X], GFI[X, X]):
         """
         if check is not None:
             # Conditional merge using jnp.where
-            merged = jtu.tree_map(lambda v1, v2: jnp.where(check, v1, v2), x, x_)
+            merged = jtu.tree_map(lambda v1, v2: _where_lanes(check, v1, v2), x, x_)
             # No values are truly "discarded" in conditional selection
             return merged, None
         else:
@@ -2253,7 +2263,7 @@ class Fn(
                     if check is not None:
                         # Use conditional selection at the leaf
                         result[key] = jtu.tree_map(
-                            lambda v1, v2: jnp.where(check, v1, v2), val_x, val_x_
+                            lambda v1, v2: _where_lanes(check, v1, v2), val_x, val_x_
                         )
                         # In conditional merge, nothing is truly discarded
                     else:
@@ -2641,7 +2651,8 @@ class CondTr(Generic[X, R], Trace[X, R]):
         return ((self.check, *args), kwargs)
 
     def get_retval(self) -> R:
-        return jnp.where(self.check, *map(get_retval, self.trs))
+        r, r_ = map(get_retval, self.trs)
+        return jtu.tree_map(lambda v1, v2: _where_lanes(self.check, v1, v2), r, r_)
 
     def get_score(self) -> Score:
         n_lane_axes = jnp.ndim(self.check)
